@@ -92,6 +92,9 @@ pub struct Scenario {
   pub faults: BTreeMap<usize, StepFault>,
   /// Replay variants for C16 (0 = none).
   pub replays: u8,
+  /// Also replay in a second process with OS-random hash seeds (C16).
+  #[serde(default)]
+  pub proc_replay: bool,
 }
 
 // ---------------------------------------------------------------------------------------------------------------------
@@ -114,11 +117,12 @@ pub struct GenCfg {
   pub wrappers: bool,
   /// Use pie's file resource (family 4) as a backend too.
   pub files: bool,
+  pub proc_replay: bool,
 }
 
 impl Default for GenCfg {
   fn default() -> Self {
-    GenCfg { class: Class::W, bottom_up: 0, td_between: false, all_roots_td: false, crash: false, check_errors: false, rw_errors: false, exact_only_pct: 40, sim_fams_only: true, replays: 0, big: false, wrappers: false, files: false }
+    GenCfg { class: Class::W, bottom_up: 0, td_between: false, all_roots_td: false, crash: false, check_errors: false, rw_errors: false, exact_only_pct: 40, sim_fams_only: true, replays: 0, big: false, wrappers: false, files: false, proc_replay: false }
   }
 }
 
